@@ -547,3 +547,23 @@ func withinBudget(v any, n int) bool {
 	}
 	return walk(reflect.ValueOf(v), 0)
 }
+
+// Deref follows pointers and interfaces: a nil pointer of any type is NULL
+// (nil), a non-nil pointer yields its pointee. Monitors that judge ordering or
+// NULL-ness use it so that an engine-internal pointer cannot hide a NULL.
+func Deref(v any) any {
+	for depth := 0; depth < 8; depth++ {
+		if v == nil {
+			return nil
+		}
+		rv := reflect.ValueOf(v)
+		if rv.Kind() != reflect.Ptr && rv.Kind() != reflect.Interface {
+			return v
+		}
+		if rv.IsNil() {
+			return nil
+		}
+		v = rv.Elem().Interface()
+	}
+	return v
+}
